@@ -12,8 +12,9 @@ var (
 
 func initCBOREncMode() (en cbor.EncMode, err error) {
 	encOpt := cbor.EncOptions{
-		IndefLength: cbor.IndefLengthForbidden,
-		TimeTag:     cbor.EncTagRequired,
+		IndefLength:   cbor.IndefLengthForbidden,
+		TimeTag:       cbor.EncTagRequired,
+		NilContainers: cbor.NilContainerAsEmpty,
 	}
 	return encOpt.EncMode()
 }
